@@ -128,40 +128,6 @@ theorem negotiation_stuck_below_10 (n : Nat) :
 
 /-! ## Both sides build the same transaction -/
 
-theorem mirror_mirror_view (v : View) : v.mirror.mirror = v := by
-  cases v; simp [View.mirror]
-
-theorem mirror_mirror_req (r : CloseReq) : r.mirror.mirror = r := by
-  obtain ⟨fee, ls, rs, lop, rop, payer, cs, cl⟩ := r
-  cases payer with
-  | none => simp [CloseReq.mirror]
-  | some p => cases p <;> simp [CloseReq.mirror, Party.other]
-
-theorem payerOf_mirror (isInit : Bool) (payer : Option Party) :
-    payerOf (!isInit) (payer.map Party.other) = (payerOf isInit payer).other := by
-  cases payer with
-  | none => cases isInit <;> rfl
-  | some p => cases p <;> rfl
-
-/-- `CoopCloseBalance` seen from the other side returns the swapped pair. -/
-theorem coopCloseBalance_mirror (anchors isInit : Bool) (fee our their cf : Int) (payer : Option Party) :
-    coopCloseBalance anchors (!isInit) fee their our cf (payer.map Party.other) =
-      (coopCloseBalance anchors isInit fee our their cf payer).map Prod.swap := by
-  unfold coopCloseBalance
-  rw [payerOf_mirror]
-  cases isInit <;> cases hp : payerOf _ payer <;>
-    simp only [Party.other, Bool.not_false, Bool.not_true, if_true, if_false, Bool.false_eq_true,
-      reduceCtorEq] <;>
-    split <;> split <;> first | rfl | omega | (simp_all; done) | (exfalso; omega)
-
-/-- `CreateCooperativeCloseTx` with the two parties' arguments exchanged builds the same tx. -/
-theorem createCloseTx_swap (o : TxOpts) (ld rd our their : Int) (ls rs : Script) (lop rop : Bool) :
-    createCloseTx o rd ld their our rs ls rop lop = createCloseTx o ld rd our their ls rs lop rop := by
-  have h1 : (partyOut o rd their rs rop).length ≤ 1 := by unfold partyOut; split <;> simp
-  have h2 : (partyOut o ld our ls lop).length ≤ 1 := by unfold partyOut; split <;> simp
-  simp only [createCloseTx]
-  rw [sortOuts_comm_small _ _ h1 h2]
-
 /--
 `same_tx_both_sides`: for all balances (msat), commit fee, fee, delivery scripts, dust limits,
 channel type, opener role, fee payer, custom sequence / locktime: the transaction side A builds
@@ -193,35 +159,11 @@ theorem same_balances_both_sides (v : View) (r : CloseReq) :
   coopCloseBalance_mirror _ _ _ _ _ _ _
 
 
-/-! ## Each side is paid its exact balance -/
+/-! ## Each side is paid its exact balance
 
-/-- what the property statement says the local party is owed: its balance (msat truncated to
-    sat), plus the dangling commit fee and both anchors if it opened the channel, minus the
-    closing fee if it is the paying party. -/
-def finalLocal (v : View) (r : CloseReq) : Int :=
-  toSat v.localMsat
-    + (if v.isInit then v.commitFee + (if v.anchors then 2 * anchorSize else 0) else 0)
-    - (if payerOf v.isInit r.payer = .local then r.fee else 0)
-
-def finalRemote (v : View) (r : CloseReq) : Int :=
-  toSat v.remoteMsat
-    + (if v.isInit then 0 else v.commitFee + (if v.anchors then 2 * anchorSize else 0))
-    - (if payerOf v.isInit r.payer = .remote then r.fee else 0)
-
-/-- the paying party's balance before the fee is charged. -/
-def payerCredit (v : View) (r : CloseReq) : Int :=
-  match payerOf v.isInit r.payer with
-  | .local => finalLocal v r + r.fee
-  | .remote => finalRemote v r + r.fee
-
-theorem coopCloseBalance_eq (v : View) (r : CloseReq) :
-    coopCloseBalance v.anchors v.isInit r.fee (toSat v.localMsat) (toSat v.remoteMsat) v.commitFee r.payer =
-      if finalLocal v r < 0 ∨ finalRemote v r < 0 then none else some (finalLocal v r, finalRemote v r) := by
-  unfold coopCloseBalance finalLocal finalRemote initiatorDelta
-  cases v.isInit <;> cases payerOf _ r.payer <;>
-    simp only [if_true, if_false, Bool.false_eq_true, reduceCtorEq] <;>
-    (congr 1 <;> first | rfl | (simp only [Int.add_zero, Int.sub_zero]) | skip) <;>
-    simp only [Int.add_zero, Int.sub_zero]
+`finalLocal v r` / `finalRemote v r` (Lemmas.lean) are what the property statement says the two
+parties are owed: sat balance (msat truncated) + commit fee + 2·330 sat anchors if opener −
+fee if paying party; `payerCredit` is the paying party's amount before the fee. -/
 
 /--
 `close_value`: whenever a close transaction is built, "our" reported balance is exactly what the
@@ -252,20 +194,6 @@ theorem close_value (v : View) (r : CloseReq) (tx : CloseTx) (bal : Int)
       refine ⟨rfl, by omega, by omega, sortOuts_perm _, sortOuts_sorted _, ?_, rfl, rfl⟩
       intro he
       simp [sanityErr, he] at hs
-
-/-- a party's output exists iff its balance reaches its own dust limit, and carries that balance. -/
-theorem mem_partyOut (o : TxOpts) (dust bal : Int) (s : Script) (op : Bool) (x : TxOut) :
-    x ∈ partyOut o dust bal s op ↔
-      dust ≤ bal ∧ x = ⟨if o.customSeq.isSome && op then 0 else bal, s⟩ := by
-  unfold partyOut
-  by_cases h : bal ≥ dust
-  · simp [h]
-  · simp [h]
-
-/-- legacy flow (no custom sequence): the output value is the balance itself. -/
-theorem partyOut_legacy (o : TxOpts) (ho : o.customSeq = none) (dust bal : Int) (s : Script) (op : Bool) :
-    partyOut o dust bal s op = if bal ≥ dust then [⟨bal, s⟩] else [] := by
-  simp [partyOut, ho]
 
 /-- value conservation: outputs + fee + (balances omitted as dust or zeroed for OP_RETURN) is
     exactly what the channel held: both sat balances + commit fee + anchors. -/
